@@ -81,6 +81,42 @@ def mentions(c, name, _memo={}):
     return False
 
 
+
+def foreign_program_reads(J, P, paths, pr, name, skip=0):
+    """context-freedom of the emission: everything one loop iteration decides or writes (path conditions, emitted bytes, recorded jumps, new offset) may read
+    the program only inside the current instruction's 16 bytes [prog + 8*pc, prog + 8*pc + 16).  The per-instruction translation validation of C03/C07/C08
+    (one instruction compiled in one context, operands symbolic) lifts to whole programs only under this premise.  Returns the neighbours found:
+    dicts(slot_delta, bytes, pc, regbyte, off, imm) from solver models."""
+    M0 = J.M0; a0 = J.prog_base + 8 * P.pc; found = []; seen_addr = set()
+    for p in paths:
+        if p.kind not in ('cut', 'return'): continue
+        terms = list(p.st.pc)[skip:] + [p.st.mem]       # the first `skip` conditions are the caller's assumptions (verifier formula: talks about other instructions)
+        for e in p.st.events:
+            if e[0] == 'jump': terms += [x.t for x in e[1].f if isinstance(x, V)]
+        jm = p.st.frames[0].locals.get('$jm') if p.st.frames else None
+        if jm is not None and J.off_field in getattr(jm, 'fields', {}): terms.append(jm.fields[J.off_field].t)
+        seen = set(); stack = [t for t in terms if hasattr(t, 'get_id')]; addrs = []
+        while stack:
+            t = stack.pop(); i = t.get_id()
+            if i in seen: continue
+            seen.add(i)
+            if t.num_args() == 2 and t.decl().name() == 'select' and t.arg(0).eq(M0): addrs.append(t.arg(1))
+            stack.extend(t.children())
+        for a in addrs:
+            k = (a.get_id())
+            if k in seen_addr: continue
+            seen_addr.add(k)
+            d = simplify(a - a0)
+            if is_bv_value(d) and d.as_long() < 16:
+                pr.out['syntactic'] = pr.out.get('syntactic', 0) + 1; continue
+            r, m = pr.prove(f'{name}:emission-reads-only-the-current-instruction', list(p.st.pc), ULT(a - a0, 16),
+                            sample=f'{name}: every program byte one jit_compile iteration depends on lies inside the current instruction')
+            if r == 'sat':
+                av = obl.mval(m, a); base = obl.mval(m, J.prog_base); pcv = obl.mval(m, P.pc); slot = (av - base) // 8
+                bts = [m.eval(Select(M0, BitVecVal(base + 8 * slot + i, 64)), model_completion=True).as_long() for i in range(8)]
+                found.append(dict(slot_delta=slot - pcv, bytes=bytes(bts).hex(), pc=pcv, regbyte=obl.mval(m, P.regbyte), off=obl.mval(m, P.off), imm=obl.mval(m, P.imm)))
+    return found
+
 def buffer_obligation(pr, J, name, pc_, off0, d, cands, assumed=()):
     """an emitting path explored under `64 bytes left` takes the same branches whenever the buffer has room for just the bytes it emits"""
     L = [c for c in pc_ if mentions(c, 'jm.contents.len') and not any(c.eq(x) for x in assumed)]; A = [c for c in pc_ if not mentions(c, 'jm.contents.len')]
@@ -241,7 +277,7 @@ def worker(args):
                 off0 = J.jm_offset()
                 inv = [alen, simplify(A), ULT(P.pc, n), J.nslots == n + 1, ULE(off0, 1 << 32), ULE(J.prog_len, 8000000),
                        Or(Not(J.jm_we()), UGE(J.jm_len(), off0 + 64)), ULE(J.jm_len(), 1 << 40), ULE(BitVec('jm.contents.ptr', 64), 1 << 62), ULE(BitVec('pc_locs.ptr', 64), 1 << 62)]
-                st.pc += inv
+                st.pc += inv; n_assumed = len(st.pc)
                 paths = J.eng.explore(st, cuts={(J.f.name, J.head)})
                 by_we = {True: [], False: []}
                 for p in paths:
@@ -296,6 +332,9 @@ def worker(args):
                         if r0 == 'unsat': continue
                         r, m = pr.prove(f'{name}:two-pass-agreement', both, ot == of_, sample=f'{name}: sizing pass and emitting pass advance the code offset by the same amount')
                         if r == 'sat': cands.append(dict(role=f'jit-compile/{name}/two-pass-disagreement', detail=f'the counting pass and the emitting pass emit different numbers of bytes ({of_} vs {ot})', model=dict(opc=opc, off=obl.mval(m, P.off), imm=obl.mval(m, P.imm), regbyte=obl.mval(m, P.regbyte)), friendly=True))
+                for nb in foreign_program_reads(J, P, paths, pr, name, n_assumed)[:1]:
+                    # not a C12 violation by itself (C12 is about panics and overruns): recorded; C03 / C08 act on it (engine/jitcontext.py)
+                    pr.out.setdefault('context_dependent_emission', []).append(f'{name}: depends on the instruction at pc{nb["slot_delta"]:+d} (bytes {nb["bytes"]})')
                 if by_we[True] and by_we[False]: pr.out['witnesses'] += 1
                 else: pr.out['errors'].append(f'{name}: missing pass ({len(by_we[True])} emitting, {len(by_we[False])} sizing paths)')
                 pr.out['programs'] += 1
